@@ -455,11 +455,24 @@ def r_poly_binop(sig, body, arg):
 
 
 def r_iter_mut_opassign(sig, body, arg):
-    """R4 + operator-assign desugaring: `for X in A.iter_mut() { *X OP= E; }` ->
-    `for vx_i in 0..A.len() { A[vx_i] = A[vx_i] OP E; }` (OpAssign == Op is discharged by U-FELT)."""
-    pat = re.compile(r"for\s+(\w+)\s+in\s+(\w+)\.iter_mut\(\)\s*\{\s*\*\1\s*([*+\-])=\s*([^;]+);\s*\}")
-    body, n = pat.subn(lambda m: "let vx_len = %s.len();\n    for vx_i in 0..vx_len {\n        %s[vx_i] = %s[vx_i] %s %s;\n    }" % (
-        m.group(2), m.group(2), m.group(2), m.group(3), m.group(4)), body)
+    """R4 + operator-assign desugaring: `for X in A.iter_mut() { ... *X ... }` ->
+    `let vx_len = A.len(); for vx_i in 0..vx_len { ... A[vx_i] ... }`, and inside it
+    `A[vx_i] OP= E;` -> `A[vx_i] = A[vx_i] OP E;` (OpAssign == Op is discharged by U-FELT)."""
+    from . import extract as X
+    pat = re.compile(r"for\s+(\w+)\s+in\s+(\w+)\.iter_mut\(\)\s*\{")
+    n = 0
+    while True:
+        m = pat.search(body)
+        if not m:
+            break
+        bo = m.end() - 1
+        bc = X.match_brace(X.mask(body), bo)
+        x, a = m.group(1), m.group(2)
+        inner = body[bo + 1:bc]
+        inner = re.sub(r"\*\s*%s\b" % re.escape(x), "%s[vx_i]" % a, inner)
+        inner = re.sub(r"(%s\[vx_i\])\s*([*+\-])=\s*([^;]+);" % re.escape(a), r"\1 = \1 \2 \3;", inner)
+        body = body[:m.start()] + "let vx_len = %s.len();\n    for vx_i in 0..vx_len {" % a + inner + body[bc:]
+        n += 1
     return sig, body, n
 
 
